@@ -186,20 +186,19 @@ fn reset_check(ev: Output<State, Er>) {
     assert!(frame_eq(&pre, &snap(&s)));
     assert!(fresh.settable_data.following.is_none() && fresh.settable_data.last_request.is_none());
     assert!(s.get().beq(&fresh.get()));
+    reach!();
 }
 
 //@ob fn="<CommandPID<G,E> as Updatable>::update" at=src/streams/control.rs:180 clause="reset on absent: step(s, None) == step(new(same command, k-values), None): update_state, command, k-values bit-equal, get() equal; settable bookkeeping untouched; arbitrary state s"
 #[kani::proof]
 fn c05_cpid_reset_absent() {
     reset_check(Ok(None));
-    reach!();
 }
 
 //@ob fn="<CommandPID<G,E> as Updatable>::update" at=src/streams/control.rs:184 clause="error is cached and erases history: step(s, Err e) == step(new(same command, k-values), Err e) bit for bit, so the next present sample starts afresh; arbitrary state s, every e"
 #[kani::proof]
 fn c05_cpid_reset_error() {
     reset_check(Err(kani::any()));
-    reach!();
 }
 
 //@ob fn="<CommandPID<G,E> as Updatable>::update" at=src/streams/control.rs:192 clause="first present sample after a cached error or a reset has the structure of the first sample of a new stream: one stored sample stamped d.time, no integration levels, get() of the same category and timestamp as that of new() fed d (bit-equality of the values follows from c05_cpid_reset_error + determinism; the float formula itself is C11)"
